@@ -104,6 +104,19 @@ impl SendDispatcher<'_> {
     }
 }
 
+#[cfg(feature = "verif-hooks")]
+#[allow(missing_docs)]
+impl SendDispatcher<'_> {
+    /// Number of boxed systems in every group of every stage of the layout
+    /// that is really executed.
+    pub fn verif_layout(&self) -> Vec<Vec<usize>> {
+        self.stages
+            .iter()
+            .map(|s| (0..s.verif_num_groups()).map(|g| s.verif_group_len(g)).collect())
+            .collect()
+    }
+}
+
 impl RunNow<'_> for SendDispatcher<'_> {
     fn run_now(&mut self, world: &World) {
         self.dispatch(world);
